@@ -140,7 +140,7 @@ case("REFUSED: generator with return", '''
         return out
 ''', 0)
 
-case("REFUSED: generator re-binds nothing but is referred to elsewhere (kept, still inlined in the loop)", '''
+case("generator used twice: collected by list() and looped over", '''
     def _g(xs):
         for x in xs:
             yield x * 2
@@ -149,7 +149,7 @@ case("REFUSED: generator re-binds nothing but is referred to elsewhere (kept, st
         for y in _g([1, 2]):
             out.append(y)
         return out
-''', 1)
+''', 2)
 
 case("nested loop in body with its own break/continue is fine", '''
     def _g(xs):
@@ -229,6 +229,125 @@ case("other passes: folded temporaries, loop shapes, tail sinking, display loops
             return _r
     def main():
         return K().fill([1, 2, 3, 4, 5])
+""", 0)
+
+case("collect: list(generator) with return-as-break, target reused as accumulator", """
+    class K:
+        def __init__(self):
+            self.running = {1: "a", 2: "b", 3: "c", 4: "d"}
+        def _newest(self, num):
+            for idx, tid in enumerate(reversed(self.running)):
+                if idx >= num:
+                    return
+                yield tid
+        def stop(self, num):
+            ids = list(self._newest(num))
+            return ids
+    def main():
+        k = K()
+        return [k.stop(n) for n in (0, 1, 2, 9, -1, 1.5)]
+""", 1)
+
+case("collect: tuple()/set() and return forms, yield under try body allowed here", """
+    def _g(xs):
+        for x in xs:
+            try:
+                yield 10 // x
+            except ZeroDivisionError:
+                yield -1
+    def a(xs):
+        return tuple(_g(xs))
+    def b(xs):
+        s: set = set(_g(xs))
+        return sorted(s)
+    def main():
+        return a([1, 0, 5]), b([2, 0, 2])
+""", 1)
+
+case("collect: option strings generator with a helper that claims a flag", """
+    class P:
+        def __init__(self):
+            self.flags = set()
+        def _claim(self, letter):
+            for c in (letter, letter.upper()):
+                if c not in self.flags:
+                    self.flags.add(c)
+                    return f"-{c}"
+            return None
+        def _opts(self, name):
+            long = f'--{name.replace("_", "-")}'
+            flag = self._claim(name[0])
+            if flag is not None:
+                yield flag
+            yield long
+        def add(self, name):
+            names = list(self._opts(name))
+            return names
+    def main():
+        p = P()
+        return [p.add("group_name"), p.add("go"), p.add("get")]
+""", 1)
+
+case("REFUSED: return inside an inner loop of the generator", """
+    def _g(rows):
+        for row in rows:
+            for x in row:
+                if x < 0:
+                    return
+                yield x
+    def main():
+        return list(_g([[1, 2], [3, -1, 4], [5]]))
+""", 0)
+
+case("loop form with return-as-break in the generator", """
+    def _g(xs, limit):
+        for i, x in enumerate(xs):
+            if i >= limit:
+                return
+            yield x
+    def main():
+        out = []
+        for x in _g("abcdef", 3):
+            out.append(x)
+        out.append("after")
+        return out
+""", 1)
+
+case("option-table method with parameters, unpacked into a call", """
+    class K:
+        def __init__(self):
+            self.end, self.cancel = "E", "C"
+        def _options(self, group_name):
+            return {"group_name": group_name, "end_callback": self.end, "cancel_callback": self.cancel}
+        def _start(self, coro, group_name="g", ignore_lock=True, end_callback=None, cancel_callback=None):
+            return (coro, group_name, ignore_lock, end_callback, cancel_callback)
+        def run(self, name):
+            out = self._start("c", **self._options(name))
+            self.end = "E2"
+            return out, self._start("d", **self._options(group_name=name)), self._start(*["x", "y"])
+    def main():
+        return K().run("grp")
+""", 0)
+
+case("list(map(bound method, xs)) reads like the comprehension", """
+    class K:
+        def __init__(self):
+            self.d = {1: "a", 2: "b"}
+            self.seen = []
+        def _get(self, i):
+            self.seen.append(i)
+            return self.d[i]
+        def run(self, *ids):
+            tasks = list(map(self._get, ids))
+            return tasks, tuple(map(str, ids)), sorted(set(map(abs, ids))), self.seen
+    def main():
+        k = K()
+        out = [k.run(1, 2), k.run()]
+        try:
+            k.run(2, 3, 1)
+        except KeyError as e:
+            out.append(("KeyError", e.args, k.seen))
+        return out
 """, 0)
 
 
